@@ -5,17 +5,21 @@ CONSTANTS
   AcSet = {TRUE, FALSE}
   OptSet = {"default", "tight"}
   MeshSet = {TRUE, FALSE}
-  DclSet = {0, 1, 2}
+  DclSet = {"none", "f", "F", "r", "fr", "rf"}
   EgcSet = {TRUE, FALSE}
   VbandSet = {"wide", "narrow"}
   PlimSet = {"loose", "tight"}
   QlimSet = {"tight"}
-  RateSet = {"loose", "tight"}
-  VarSet = {1}
+  RateSet = {"loose", "tight", "trafo"}
+  VarSet = {1, 3}
+  ShiftSet = {0, 30, 330}
+  SnSet = {1, 10}
+  GhostSet = {"none", "storage"}
+  MaxDev = 1
   CtrlSets = {{}, {"gen", "storage"}, {"sgen", "load"}, {"gen", "sgen", "load", "storage"}}
   Profiles = {"lin", "pwl"}
   MaxCosted = 1
-  GridModelMax = 150
+  GridModelMax = 1000
 INVARIANT ObjectiveConvention
 INVARIANT PwlWellFormed
 INVARIANT CostInRange
@@ -23,3 +27,5 @@ INVARIANT PwlTranscriptionAgrees
 INVARIANT GridOptSane
 INVARIANT NoUnclassifiedDeviation
 INVARIANT GridSmall
+INVARIANT GhostRowVanishes
+INVARIANT DclWellFormed
